@@ -77,6 +77,9 @@ def gen_cases(tier, seed):
                 continue
             cases.append({"kind": "blocks", "subject": "flow", "cfg": fc, "seed": env.subseed(seed, "c04b", i), "world": "f64",
                           "nsamp": 1500 if tier == "quick" else 6000, "cost": 5})
+    for i in range(4 if tier == "quick" else 40):
+        cases.append({"kind": "scalar_event", "variant": i % 4, "cfg": {"flow": "scalar_event", "D": 0}, "seed": env.subseed(seed, "c04s", i),
+                      "world": "f64", "cost": 1})
     return cases
 
 
@@ -153,7 +156,11 @@ def run_blocks(r, case):
         torch.manual_seed(seed + rows)
         try:
             with torch.no_grad():
-                joint = obj.sample(nn_, ctx)
+                # generated in one go (2 rows), in batches that do not divide the count (3 rows: 1501 draws in batches of 400),
+                # in many small batches (5 rows): the assembly of the batches must keep block i with context row i
+                bs_ = {2: None, 3: 400, 5: 64}[rows]
+                joint = obj.sample(nn_, ctx) if bs_ is None else obj.sample(nn_, ctx, batch_size=bs_)
+                r.count("block_sets_generated_in_batches", int(bs_ is not None))
                 single = [obj.sample(nn_, ctx[i:i + 1])[0] for i in range(rows)]
         except Exception as e:
             r.ev()
@@ -219,9 +226,62 @@ def run_blocks(r, case):
     r.sample({"subject": label, "blocks_tested": True})
 
 
+def run_scalar_event(r, case):
+    """flows over a SCALAR event (StandardNormal([]), samples of shape [n]): elementwise transforms reduce over "all but the batch
+    dimension", which is no dimension at all here"""
+    from nflows import transforms as T
+    from nflows.flows.base import Flow
+    from nflows.distributions.normal import StandardNormal
+    seed = case["seed"]
+    parts = {0: [T.LeakyReLU(0.3), T.PointwiseAffineTransform(0.5, 2.0)],
+             1: [T.PointwiseAffineTransform(-1.0, 0.7), T.LeakyReLU(2.5), T.LeakyReLU(0.01)],
+             2: [T.InverseTransform(T.LeakyReLU(0.2)), T.LogTanh(cut_point=2.0)],
+             3: [T.InverseTransform(T.Tanh()), T.PointwiseAffineTransform(0.0, 3.0)]}[case["variant"]]
+    flow = Flow(T.CompositeTransform(parts), StandardNormal([])).eval()
+    label = "flow over a scalar event (variant %d)" % case["variant"]
+    for n in (1, 2, 7):
+        torch.manual_seed(seed + n)
+        try:
+            with torch.no_grad():
+                s, lp = flow.sample_and_log_prob(n)
+                smp = flow.sample(n)
+        except Exception as e:
+            r.ev()
+            r.viol("salp_raises", "flow.sample_and_log_prob raises on a valid call", exc=repr(e)[:250], exc_type=type(e).__name__, n=n,
+                   subject=label)
+            return
+        r.ev()
+        if tuple(s.shape) != (n,) or tuple(lp.shape) != (n,) or tuple(smp.shape) != (n,):
+            r.viol("shape", "flow.sample_and_log_prob returns mismatching shapes", samples=list(s.shape), log_prob=list(lp.shape),
+                   expected_lead=[n], subject=label)
+            return
+        for k in range(n):
+            r.ev()
+            r.count("pairing_rows")
+            if not (torch.isfinite(s[k]) and torch.isfinite(lp[k])) or abs(float(lp[k])) > 50:
+                r.count("skipped_illconditioned_rows")
+                continue
+            with torch.no_grad():
+                ref = flow.log_prob(s[k:k + 1])
+            err = abs(float(ref) - float(lp[k]))
+            if err > TOL * (1 + abs(float(ref))):
+                r.viol("pairing", "sample_and_log_prob returns a log-prob that log_prob does not assign to that sample under that context row",
+                       draw=k, returned=float(lp[k]), recomputed=float(ref), n=n, subject=label)
+                return
+        r.cell(0, "standard", "noctx", "scalar_event", case["variant"])
+    r.count("noise_replay_rows", 0)
+    r.sample({"flow": label})
+
+
 def run_case(case):
     r = R(case)
     cfg, seed = case["cfg"], case["seed"]
+    if case["kind"] == "scalar_event":
+        try:
+            run_scalar_event(r, case)
+        except Exception as e:
+            r.inconc("harness failure: %r" % (e,))
+        return r.done()
     if case["kind"] == "blocks":
         try:
             run_blocks(r, case)
